@@ -58,9 +58,16 @@ func c02Judge(root string, cfg wrConfig, before, after map[string]fileState, r R
 				}
 			}
 		}
+		// a printed path names the entry it leads to when directory links on the way are followed
+		// (never a final link), c02_links.go
+		c02NamedPhysical(before, root, named, chmodLogged)
 		// every printed path must name, walked through the directories of the tree, the file that its
 		// lexical reading names (gentree_c02.go)
 		ps = append(ps, c02PrintedPaths(root, cfg, before, after, r.Stdout)...)
+	}
+	linkTargets := map[string]string{}
+	if autofix {
+		linkTargets = c02LinkTargetsOf(before, root)
 	}
 	for _, rel := range sortedKeys(after) {
 		a := after[rel]
@@ -80,6 +87,9 @@ func c02Judge(root string, cfg wrConfig, before, after map[string]fileState, r R
 			}
 			ps = append(ps, c02Problem{"C02/changed-without-autofix/" + what + "/" + fileClass(rel),
 				fmt.Sprintf("%s of %s changed in a run without --autofix (options %s)", what, rel, optclass()), rel})
+		case autofix && linkTargets[rel] != "" && !named[rel]:
+			// the target of a symbolic link: a line that names the link does not name it
+			ps = append(ps, c02LinkTargetProblem(rel, linkTargets[rel], b, a))
 		case a.Kind == "f" && b.Kind == "f" && a.Mode != b.Mode && !(chmodLogged[rel] && a.Mode == b.Mode&^0o111):
 			// the save protocol gives the temporary file the mode of the original before the rename;
 			// only "Clearing executable bits" may change a mode
@@ -100,6 +110,10 @@ func c02Judge(root string, cfg wrConfig, before, after map[string]fileState, r R
 		} else if !ok {
 			ps = append(ps, c02Problem{"C02/entry-removed/" + fileClass(rel), "directory entry removed by the run: " + rel, rel})
 		}
+	}
+	if autofix {
+		// correspondence level: all command-line targets are symbolic links => no file operation
+		ps = append(ps, c02ArgFollowed(root, cfg, before, after)...)
 	}
 	return ps
 }
@@ -133,6 +147,13 @@ func c02Has(ps []c02Problem, key string) *c02Problem {
 }
 
 func c02Report(ctx *Ctx, res *Result, tree map[string]fileState, cfg wrConfig, p c02Problem, budget int) {
+	if p.Key == c02KeyArgFollowed {
+		// not a failing input of the property by its letter (the printed paths name the changed files through
+		// the directory link); the implementation left the model: Check must refuse a symbolic link
+		res.AddViolation(Violation{Key: p.Key, What: p.What + "; " + cfg.String(), FoundInput: false,
+			Replay: map[string]any{"broken": c02ArgFollowedBroken, "config": cfg.String(), "file": p.File}})
+		return
+	}
 	dir := filepath.Join(ctx.Work, "c02shrink")
 	small := tree
 	if budget > 0 {
@@ -161,7 +182,9 @@ func c02Report(ctx *Ctx, res *Result, tree map[string]fileState, cfg wrConfig, p
 		Replay: map[string]any{"kind": "tree", "tree": encodeTree(small), "cwd": cfg.Cwd, "args": cfg.Args, "file": pp.File, "stdout": firstLines(r.Stdout, 40)}})
 }
 
-var c02PlainOpts = [][]string{{}, {"-f"}, {"-s"}, {"-e"}, {"-g"}, {"-q"}, {"-Wall", "-Call"}, {"-f", "-s"}, {"-f", "-e"}, {"-s", "-e", "-g"}, {"-Wall", "-f", "-s", "-q"}}
+var c02PlainOpts = [][]string{{}, {"-f"}, {"-s"}, {"-e"}, {"-g"}, {"-q"}, {"-Wall", "-Call"}, {"-f", "-s"}, {"-f", "-e"}, {"-s", "-e", "-g"}, {"-Wall", "-f", "-s", "-q"},
+	// round 5: "whatever other options are used" -- the remaining argument-less options
+	{"-p"}, {"-p", "-s"}, {"-d"}, {"-I", "-Wall"}}
 
 func c02Targets(rng *Rng, g *GenTree, args []string) wrConfig { return pickTargets(rng, g, args) }
 
@@ -179,6 +202,8 @@ func runC02(ctx *Ctx) *Result {
 		r    RunResult
 		fix  bool
 		isF  bool
+		// c02_links.go: command-line targets that are symbolic links / all targets; links replaced by regular files
+		linkArgs, allArgs, replaced int
 	}
 	recs := make([][]runRec, ntrees)
 	seeds := make([]*Rng, ntrees)
@@ -223,8 +248,18 @@ func runC02(ctx *Ctx) *Result {
 			fo = append(fo, Pick(r, c02PlainOpts)...)
 		}
 		sets = append(sets, fo)
-		planted := false
+		specs := make([]c02Spec, 0, len(sets)+8)
 		for _, o := range sets {
+			specs = append(specs, c02Spec{o: o})
+		}
+		if i%c02LinkEvery == c02LinkEvery-1 {
+			// every fourth tree: symbolic links in the tree and on the command line (own Rng), c02_links.go
+			lr := c02LinkRng(ctx.Seed, i)
+			specs = c02LinkSpecs(lr, c02PlantLinks(lr, g, root, probe.Stdout), specs)
+		}
+		planted := false
+		for _, spec := range specs {
+			o := spec.o
 			if len(o) > 0 && o[0] == "-F" && !planted && i%4 == 1 {
 				// every fourth tree: entries of every kind at <file>.pkglint.tmp for files that are going to be fixed
 				planted = true
@@ -235,10 +270,15 @@ func runC02(ctx *Ctx) *Result {
 				}
 				featMu.Unlock()
 			}
-			cfg := c02Targets(r, g, o)
-			if len(o) > 1 && o[0] == "-F" && o[len(o)-2] == "--only" && r.Chance(60) {
-				// the filtered --autofix run mostly sees the whole tree
-				cfg = wrConfig{Cwd: ".", Args: append(append([]string{}, o...), "-r", ".")}
+			var cfg wrConfig
+			if spec.cfg != nil {
+				cfg = *spec.cfg
+			} else {
+				cfg = c02Targets(r, g, o)
+				if len(o) > 1 && o[0] == "-F" && o[len(o)-2] == "--only" && r.Chance(60) {
+					// the filtered --autofix run mostly sees the whole tree
+					cfg = wrConfig{Cwd: ".", Args: append(append([]string{}, o...), "-r", ".")}
+				}
 			}
 			before := readTree(root)
 			run := RunPkglint(ctx, filepath.Join(root, cfg.Cwd), 30*time.Second, cfg.Args...)
@@ -246,7 +286,9 @@ func runC02(ctx *Ctx) *Result {
 			ps := c02Judge(root, cfg, before, after, run)
 			isF := len(o) > 0 && o[0] == "-F"
 			fired := isF && (strings.Contains(run.Stdout, "AUTOFIX: ") || strings.Contains(run.Stdout, ": autofix: "))
-			recs[i] = append(recs[i], runRec{cfg: cfg, tree: before, ps: ps, r: run, isF: isF, fix: (!isF && hasFix) || fired})
+			la, aa := c02LinkArgs(before, root, cfg)
+			recs[i] = append(recs[i], runRec{cfg: cfg, tree: before, ps: ps, r: run, isF: isF, fix: (!isF && hasFix) || fired,
+				linkArgs: la, allArgs: aa, replaced: c02ReplacedLinks(before, after)})
 		}
 		featMu.Lock()
 		for k, v := range g.Features {
@@ -269,6 +311,7 @@ func runC02(ctx *Ctx) *Result {
 	worst := map[string]pending{}
 	chmods, changedF, nontrivial, abnormal := 0, 0, 0, 0
 	pathDotdot, pathTwoUp, pathUpDownUp := 0, 0, 0
+	linkArgRuns, replacedRuns := 0, 0
 	for _, rr := range recs {
 		for _, rec := range rr {
 			res.Evaluations++
@@ -290,6 +333,17 @@ func runC02(ctx *Ctx) *Result {
 				if strings.Contains(rec.r.Stderr, ".pkglint.tmp: Cannot write: ") {
 					res.Count("runs_-F_with_refused_save", 1)
 				}
+				if rec.linkArgs > 0 {
+					linkArgRuns++
+					res.Count("c02.links.runs_-F_with_link_argument", 1)
+					if rec.linkArgs == rec.allArgs {
+						res.Count("c02.links.runs_-F_all_arguments_links", 1)
+					}
+				}
+				if rec.replaced > 0 {
+					replacedRuns++
+					res.Count("c02.links.runs_-F_link_replaced_by_regular_file", 1)
+				}
 				dd, tu, udu := c02PathShape(rec.r.Stdout)
 				if dd {
 					pathDotdot++
@@ -302,6 +356,9 @@ func runC02(ctx *Ctx) *Result {
 				}
 			} else {
 				res.Count("runs_without_-F", 1)
+				if rec.linkArgs > 0 {
+					res.Count("c02.links.runs_without_-F_with_link_argument", 1)
+				}
 			}
 			for k, a := range rec.cfg.Args {
 				if strings.HasPrefix(a, "-") {
@@ -345,6 +402,12 @@ func runC02(ctx *Ctx) *Result {
 			What:       fmt.Sprintf("the -F runs no longer print AUTOFIX lines for files reached through parent directories: %d runs with '..' in a printed path, %d with '../..', %d with '../name/..' (need %d each); the generated include chains through sibling directories (gentree_c02.go) are not fixed or not printed with their path any more", pathDotdot, pathTwoUp, pathUpDownUp, need),
 			FoundInput: false,
 			Replay:     map[string]any{"broken": "coverage of the printed-path/written-path correspondence: include chains through sibling directories", "with_dotdot": pathDotdot, "with_two_up": pathTwoUp, "up_down_up": pathUpDownUp, "need": need}})
+	}
+	if need := c02LinkFloor(ntrees); len(res.Violations) == 0 && (linkArgRuns < need || replacedRuns < 1) {
+		// again not res.Broken: a program change that keeps links from being reached must not pass as "check broken"
+		res.AddViolation(Violation{Key: "C02/coverage-lost/symbolic-links", FoundInput: false,
+			What:   fmt.Sprintf("only %d --autofix runs had a symbolic link among their command-line targets (need %d) and only %d replaced a symbolically linked Makefile by a regular file (need 1), although every fourth tree contains such links (c02_links.go)", linkArgRuns, need, replacedRuns),
+			Replay: map[string]any{"broken": "coverage of symbolic links: links as command-line targets, saves over a link", "link_argument_runs": linkArgRuns, "replaced": replacedRuns, "need": need}})
 	}
 	res.Exhaustive = false
 	if refused, _ := res.Distribution["runs_-F_with_refused_save"].(int); len(res.Violations) == 0 && refused < ntrees/40 {
